@@ -93,10 +93,12 @@ def gen(prop, stream, tier, avoid):
             op = {"op": "restart", "cache_size": rng.pick([None, "1", "16", "1024"])}
         if k in ("export", "import", "import_dir") and fl.chance(knobs["fault_p"]) and len([o for o in ops if o.get("faults")]) < 3:
             if k == "export":
-                kind = fl.weighted([("open_fails", 1), ("write_fails", 2), ("close_fails", 1.5), ("crash", 2)])
+                kind = fl.weighted([("open_fails", 1), ("write_fails", 2), ("close_fails", 2.5), ("crash", 2)])
             else:
                 kind = fl.weighted([("open_fails", 1), ("read_fails", 2), ("crash", 1)])
             f = {"kind": kind, "nth": fl.randint(1, 4 if kind == "crash" else 2)}
+            if kind == "close_fails" and fl.chance(0.6):
+                f["nth"] = 1      # the deferred write error of the (usually only) file of the export
             if kind in ("write_fails", "close_fails"):
                 f["errno"] = fl.pick([5, 28])      # EIO, ENOSPC
             elif kind == "open_fails":
@@ -608,7 +610,12 @@ def _do_export(world, ctx, op, idx, ack_then_boundary):
     world.disk.disarm()
     ctx.log("export", fmt, sel, base, outcome, fired)
     ctx.ops_executed += 1
-    faulted = bool(fired)
+    # an export that RETURNS NORMALLY is acknowledged - also when an injected write / close error fired underneath it (the error was
+    # swallowed somewhere): the caller has no way to know that it should retry, so the file must be complete. Only an export that
+    # raised or crashed leaves its paths indeterminate.
+    faulted = bool(fired) and outcome != "returned"
+    if fired and outcome == "returned":
+        ctx.probe("export_returned_normally_although_a_fault_fired")
     extra = {"sep": op["sep"], "col_sep": op["col_sep"]}
     if not faulted and outcome != "returned":
         ctx.fail("export_failed", "fault-free export_%s of %s %r to %s %s" % (fmt, first_kind, [s["sizes"] for s in snaps], base, outcome), **sig)
